@@ -7,6 +7,7 @@ builds and audits, for each check, only the groups relevant to that check's prop
 import QmcModel.Generated.PureFns
 import QmcProofs.PureFnsAgree.Prelude
 import QmcModel.Rvb
+import QmcModel.RvbRegion
 import QmcModel.Ham
 import Mathlib.Tactic.NormNum
 import Mathlib.Tactic.Linarith
@@ -112,5 +113,122 @@ theorem rvb_edge_weight_single_rvb_sweep_nofield_agree :
 theorem steps_to_run_timestep_agree (n : Nat) : Gen.steps_to_run_timestep n = (n + 1) / 2 := rfl
 
 theorem steps_to_run_single_rvb_sweep_agree : Gen.steps_to_run_single_rvb_sweep = Gen.steps_to_run_timestep := rfl
+
+/-! ### rvb.rs arithmetic: `calculate_mult`, the accept decision, the early exits, the boundary manager -/
+
+/-- Rvb.lean `calculateMult` (the two running totals, the number of rotatable operators) is the translated
+`calculate_mult` -/
+theorem rvb_calculate_mult_agree (wb wa : Rat) (n : Nat) :
+    Rvb.calculateMult wb wa n = Gen.rvb_calculate_mult wb wa n := by
+  unfold Rvb.calculateMult Gen.rvb_calculate_mult
+  by_cases h0 : n = 0
+  · simp [h0]
+  · by_cases hc : Rvb.absR (wb - wa) < Rvb.f64eps
+    · have hc' : Gen.fabs (wb - wa) < Gen.EPSILON := hc
+      simp [h0, hc, hc']
+    · have hc' : ¬ Gen.fabs (wb - wa) < Gen.EPSILON := hc
+      simp [h0, hc, hc', Gen.powi]
+
+/-- the accept decision draws nothing for `p ≥ 1`, otherwise exactly `gen_bool(p)` -/
+theorem rvb_should_mutate_draws_agree (p : Rat) :
+    Gen.rvb_should_mutate_draws p = if 1 ≤ p then [] else [p] := by
+  unfold Gen.rvb_should_mutate_draws
+  by_cases h : 1 ≤ p <;> simp [h]
+
+/-- value of the accept decision: `true` without a draw for `p ≥ 1`, else the outcome of the draw -/
+theorem rvb_should_mutate_agree (gb : Rat → Bool) (p : Rat) :
+    Gen.rvb_should_mutate gb p = if 1 ≤ p then true else gb p := by
+  unfold Gen.rvb_should_mutate
+  by_cases h : 1 ≤ p <;> simp [h]
+
+/-- Rvb.lean `acceptProb` = `min 1 rawMult` is the probability the translated decision realises: 1 when nothing
+is drawn (and the answer is `true`), else the argument of the single `gen_bool` -/
+theorem rvb_accept_prob_agree (P : Rvb.Problem) (ks : List Nat) :
+    Rvb.acceptProb P ks =
+      (match Gen.rvb_should_mutate_draws (Rvb.rawMult P ks) with
+       | [] => if Gen.rvb_should_mutate (fun _ => false) (Rvb.rawMult P ks) then 1 else 0
+       | q :: _ => q) := by
+  rw [rvb_should_mutate_draws_agree, rvb_should_mutate_agree]
+  unfold Rvb.acceptProb Rvb.minR
+  by_cases h : 1 ≤ Rvb.rawMult P ks <;> simp [h]
+
+/-- both early exits of `calculate_flip_prob` test `mult < f64::EPSILON` and leave `mult = 0` -/
+theorem rvb_mult_early_exit_1_agree (m : Rat) :
+    Gen.rvb_mult_early_exit_1 m = if m < Rvb.f64eps then some 0 else none := by
+  unfold Gen.rvb_mult_early_exit_1
+  have : Gen.EPSILON = Rvb.f64eps := rfl
+  by_cases h : m < Rvb.f64eps <;> simp [h, this]
+
+theorem rvb_mult_early_exit_2_agree : Gen.rvb_mult_early_exit_2 = Gen.rvb_mult_early_exit_1 := rfl
+
+/-- Rvb.lean `Sweep.stepOp` tests exactly the translated early-exit condition -/
+theorem rvb_mult_early_exit_agree_sweep (m : Rat) :
+    (Gen.rvb_mult_early_exit_1 m).isSome = decide (m < Rvb.f64eps) := by
+  rw [rvb_mult_early_exit_1_agree]
+  by_cases h : m < Rvb.f64eps <;> simp [h]
+
+/-- RvbRegion.lean `WBM.popIndex`: a zero translated total is the modelled panic (`0/0 = NaN` handed to `gen_bool`) -/
+theorem rvb_pop_index_agree_zero (w : Rvb.WBM) (s : RS)
+    (h : Gen.rvb_pop_total_weight w.flips.total w.noflips.total = 0) :
+    w.popIndex s = (none, { s with panicked := true }) := by
+  have h' : w.flips.total + w.noflips.total = 0 := h
+  unfold Rvb.WBM.popIndex
+  simp [h']
+
+/-- … otherwise its first draw is `gen_bool` of the translated `f_ratio` of the translated total: when that draw
+panics or exhausts the script, `popIndex` stops right there with that RNG state -/
+theorem rvb_pop_index_agree_gate (w : Rvb.WBM) (s : RS)
+    (h : Gen.rvb_pop_total_weight w.flips.total w.noflips.total ≠ 0)
+    (hp : ((s.genBool (Gen.rvb_pop_f_ratio w.flips.total w.noflips.total
+            (Gen.rvb_pop_total_weight w.flips.total w.noflips.total))).2.panicked ||
+           (s.genBool (Gen.rvb_pop_f_ratio w.flips.total w.noflips.total
+            (Gen.rvb_pop_total_weight w.flips.total w.noflips.total))).2.short) = true) :
+    w.popIndex s = (none, (s.genBool (Gen.rvb_pop_f_ratio w.flips.total w.noflips.total
+            (Gen.rvb_pop_total_weight w.flips.total w.noflips.total))).2) := by
+  have h' : ¬ (w.flips.total + w.noflips.total = 0) := h
+  unfold Gen.rvb_pop_f_ratio Gen.rvb_pop_total_weight at hp ⊢
+  unfold Rvb.WBM.popIndex
+  simp only [h', if_false]
+  simp [hp]
+
+/-- … and when it answers `true` (state fine) the key comes from `boundary_flips`, else from `boundary_noflips` -/
+theorem rvb_pop_index_agree_pick (w : Rvb.WBM) (s : RS)
+    (h : Gen.rvb_pop_total_weight w.flips.total w.noflips.total ≠ 0)
+    (hp : ((s.genBool (Gen.rvb_pop_f_ratio w.flips.total w.noflips.total
+            (Gen.rvb_pop_total_weight w.flips.total w.noflips.total))).2.panicked ||
+           (s.genBool (Gen.rvb_pop_f_ratio w.flips.total w.noflips.total
+            (Gen.rvb_pop_total_weight w.flips.total w.noflips.total))).2.short) = false)
+    (hn : w.noflips.keys = []) (hpick : (s.genBool (Gen.rvb_pop_f_ratio w.flips.total w.noflips.total
+            (Gen.rvb_pop_total_weight w.flips.total w.noflips.total))).1 = false) :
+    (w.popIndex s).1 = none := by
+  have h' : ¬ (w.flips.total + w.noflips.total = 0) := h
+  unfold Gen.rvb_pop_f_ratio Gen.rvb_pop_total_weight at hp hpick
+  unfold Rvb.WBM.popIndex
+  simp only [h', if_false]
+  simp [hp, hpick, BC.getRandom, hn]
+
+/-- RvbRegion.lean `WBM.pushAdjacent` stores the translated weight for a flip cell that was not popped yet -/
+theorem rvb_push_adjacent_agree (w : Rvb.WBM) (var p : Nat) (weight : Rat)
+    (h : (Rvb.growB w.posPopped p).getD p false = false) :
+    (w.pushAdjacent var (some p) weight).flips =
+      (w.flips.insert p (Gen.rvb_push_new_weight (w.flips.getWeight p) weight)).1 := by
+  unfold Rvb.WBM.pushAdjacent Gen.rvb_push_new_weight
+  simp only [List.getD_eq_getElem?_getD] at h
+  simp [h]
+
+/-- … and for a no-flip cell -/
+theorem rvb_push_adjacent_agree_noflip (w : Rvb.WBM) (var : Nat) (weight : Rat)
+    (h : (Rvb.growB w.noposPopped var).getD var false = false) :
+    (w.pushAdjacent var none weight).noflips =
+      (w.noflips.insert var (Gen.rvb_push_new_weight (w.noflips.getWeight var) weight)).1 := by
+  unfold Rvb.WBM.pushAdjacent Gen.rvb_push_new_weight
+  simp only [List.getD_eq_getElem?_getD] at h
+  simp [h]
+
+/-- the two weight expressions of `push_adjacent` -/
+theorem rvb_push_weight_default_agree (w : Option Rat) : Gen.rvb_push_weight_default w = w.getD 1 := rfl
+
+theorem rvb_push_new_weight_agree (old : Option Rat) (w : Rat) : Gen.rvb_push_new_weight old w = old.getD 0 + w := rfl
+
 
 end Qmc.PureFnsAgree
